@@ -169,6 +169,20 @@ func (c *Ctx) errFlow(sp *errFlowSpec, call *ast.CallExpr) errFlowResult {
 		if sp.extraSink != nil && sp.extraSink(n, v) {
 			return true
 		}
+		// a call handing the error to a local closure / helper that stores its parameter into a
+		// designated error variable (`setErr(inerr)`)
+		if es, ok := n.(*ast.ExprStmt); ok {
+			if call, ok := es.X.(*ast.CallExpr); ok {
+				for i, a := range call.Args {
+					if !mentionsV(a) {
+						continue
+					}
+					if c.storesParamIntoSink(info, call, i, sp.sinkVars, named) {
+						return true
+					}
+				}
+			}
+		}
 		return false
 	}
 	overwrites := func(n ast.Node) bool {
@@ -288,4 +302,76 @@ func (c *Ctx) reportErrFlow(rule, key string, r errFlowResult, what, clause stri
 	}
 	o := c.Violation(rule, key, r.call.Pos(), fmt.Sprintf("the error of %s can be lost: %s at line %d%s", what, r.lostWhy, ln, cause))
 	o.Clause = clause
+}
+
+// storesParamIntoSink: the callee (a function literal bound to a local, or a repository function)
+// assigns its i-th parameter to one of the designated error variables.
+func (c *Ctx) storesParamIntoSink(info *types.Info, call *ast.CallExpr, i int, sinks, named map[types.Object]bool) bool {
+	var ftype *ast.FuncType
+	var body *ast.BlockStmt
+	if id, ok := unparen(call.Fun).(*ast.Ident); ok {
+		if o := info.Uses[id]; o != nil {
+			if _, isVar := o.(*types.Var); isVar {
+				// find `o := func(...) {...}`
+				for _, p := range c.All {
+					if p.TypesInfo != info {
+						continue
+					}
+					for _, f := range p.Syntax {
+						if !(f.Pos() <= o.Pos() && o.Pos() < f.End()) {
+							continue
+						}
+						ast.Inspect(f, func(n ast.Node) bool {
+							if as, ok := n.(*ast.AssignStmt); ok {
+								for k, l := range as.Lhs {
+									if lid, ok := l.(*ast.Ident); ok && (info.Defs[lid] == o || info.Uses[lid] == o) && k < len(as.Rhs) {
+										if fl, ok := unparen(as.Rhs[k]).(*ast.FuncLit); ok {
+											ftype, body = fl.Type, fl.Body
+										}
+									}
+								}
+							}
+							return true
+						})
+					}
+				}
+			}
+		}
+	}
+	if body == nil {
+		if fn := calleeOf(info, call); fn != nil && inRepo(fn) {
+			if g := c.FuncOfObj(fn); g != nil && g.Pkg.TypesInfo == info {
+				ftype, body = g.Decl.Type, g.Decl.Body
+			}
+		}
+	}
+	if body == nil || ftype == nil {
+		return false
+	}
+	// the i-th parameter object
+	var param types.Object
+	k := 0
+	for _, f := range ftype.Params.List {
+		for _, nm := range f.Names {
+			if k == i {
+				param = info.Defs[nm]
+			}
+			k++
+		}
+	}
+	if param == nil {
+		return false
+	}
+	found := false
+	ast.Inspect(body, func(n ast.Node) bool {
+		if as, ok := n.(*ast.AssignStmt); ok && len(as.Lhs) == len(as.Rhs) {
+			for j, l := range as.Lhs {
+				if lo := identObj(info, l); lo != nil && (sinks[lo] || named[lo]) && identObj(info, as.Rhs[j]) == param {
+					found = true
+				}
+			}
+		}
+		return true
+	})
+	return found
 }
